@@ -1080,6 +1080,8 @@ def origin_cases(rng: random.Random, tier: str, known_divergent: bool = True):
     # origins: every directed kind once, then random ones
     for k in ORIGIN_KINDS:
         yield from origin_scenario(rng, k)
+    for _ in range(5):          # (equal but distinct source objects inside one multi-origin: several draws of sources / members)
+        yield from origin_scenario(rng, "multi-twins")
     for _ in range(0 if tier == "quick" else 95):
         yield from origin_scenario(rng, None)
     for _ in range(1 if tier == "quick" else 3):
@@ -1098,8 +1100,9 @@ def origin_cases(rng: random.Random, tier: str, known_divergent: bool = True):
     # registry
     for _ in range(count(5)):
         yield from registry_scenario(rng)
-    for k in TWIN_KINDS:
-        yield from twin_registry_scenario(rng, k)
+    for _rep in range(3):
+        for k in TWIN_KINDS:
+            yield from twin_registry_scenario(rng, k)
     for _ in range(0 if tier == "quick" else 30):
         yield from twin_registry_scenario(rng, rng.choice(TWIN_KINDS))
     for _ in range(count(1)):
